@@ -30,13 +30,13 @@ ASSUMPTIONS = [
 ]
 
 ALPHA = {
-    'build': 8, 'apply': 4, 'ite': 1, 'var': 1, 'quantify': 1,
+    'build': 8, 'repeat': 5, 'apply': 4, 'ite': 1, 'var': 1, 'quantify': 1,
     'drop': 2, 'gc': 1, 'declare': 1,
     'swap': 8, 'sift': 5, 'reorder_to': 5, 'reorder_pairs': 4,
     'incref': 1, 'decref': 1, 'let_compose': 1,
 }
 ALPHA_AR = {
-    'build': 8, 'funcop': 4, 'ite': 1, 'var': 1, 'drop': 2, 'gc': 1,
+    'build': 8, 'repeat': 5, 'funcop': 4, 'ite': 1, 'var': 1, 'drop': 2, 'gc': 1,
     'declare': 1, 'sift': 6, 'reorder_to': 6, 'copy_handle': 1,
     'traverse': 1,
 }
